@@ -345,8 +345,8 @@ def run_model(case):
 # ---------------------------------------------------------------------------
 # part itp-faults
 
-FAULTS = ['unknown-section', 'unknown-gromacs-like-section', 'undefined-atom-index', 'zero-atom-index', 'negative-atom-index',
-          'atom-by-name', 'duplicate-atom-id', 'too-few-atoms', 'atoms-line-too-short', 'moleculetype-line-tokens',
+FAULTS = ['undefined-atom-index', 'too-few-atoms', 'unknown-section', 'unknown-gromacs-like-section', 'zero-atom-index',
+          'negative-atom-index', 'atom-by-name', 'duplicate-atom-id', 'atoms-line-too-short', 'moleculetype-line-tokens',
           'header-unterminated', 'endif-without-if', 'else-without-if', 'nested-ifdef', 'unclosed-ifdef', 'include', 'unknown-pragma']
 
 
@@ -538,10 +538,10 @@ RULE_TEXT = ('itp-model: abstract .itp files with 1-3 moleculetypes (1-5 atoms w
              'least two moleculetype headers precede the faulty line. itp-vsites1: [ virtual_sites1 ] lines. itp-short-line: too few atom columns in the sections whose atom columns are a range.')
 
 PARTS = [
-    Part('itp-model', run_model, strategy=file_strategy, examples={'quick': 1000, 'thorough': 40000},
+    Part('itp-model', run_model, strategy=file_strategy, examples={'quick': 1000, 'thorough': 30000},
          floors={'several-moleculetypes': 0.4, 'interactions-in-later-moleculetype': 0.3, 'else-branch': 0.08,
                  'cond-sections': 0.1, 'cond-lines': 0.15, 'repeated-section': 0.05, 'virtual_sitesn': 0.05}),
-    Part('itp-faults', run_fault, strategy=strategy_fault, examples={'quick': 600, 'thorough': 20000}),
+    Part('itp-faults', run_fault, strategy=strategy_fault, examples={'quick': 500, 'thorough': 15000}),
     Part('itp-vsites1', run_vs1, strategy=strategy_vs1, examples={'quick': 32, 'thorough': 200}),
     Part('itp-short-line', run_short, strategy=strategy_short, examples={'quick': 32, 'thorough': 200}),
 ]
